@@ -61,7 +61,7 @@ class DictArray(StorageBase):
 
     def _internal_mask(self) -> np.ma.MaskedArray:
         if self.internal_shape:
-            return np.ma.empty(self.internal_shape, dtype=object)
+            return np.ma.masked_all(self.internal_shape, dtype=object)
         return np.ma.masked
 
     def __getitem__(self, key: tuple[int | slice, ...]) -> Any:
@@ -105,7 +105,8 @@ class DictArray(StorageBase):
         if external_key in self._dict:
             data = self._dict[external_key]
         else:
-            return self._internal_mask()
+            missing = self._internal_mask()
+            return missing[internal_key] if internal_key else missing
         if internal_key:
             arr = np.asarray(data)
             return arr[internal_key]
